@@ -3226,7 +3226,9 @@ class _Simu(_IObserver, _params.Updatable, ABC):
         for i, mesh in enumerate(self.__listMesh):
             if isinstance(mesh, str):
                 mesh = Load_Mesh(Folder.Join(folder, mesh))
-            path = mesh.Save(folder_meshes, f"mesh{i}")
+            # named after `filename` like the simulation's pickle, so the simulations saved in one folder
+            # under several names don't overwrite each other's meshes.
+            path = mesh.Save(folder_meshes, f"{filename}_mesh{i}")
             # pinned at write time like the entries of `__list_results`, so a later change of `self.folder`
             # (another `Save` included) doesn't desync them. `Folder.Join(folder, path)` returns an absolute
             # `path` as is, and still resolves the folder-relative entries of older pickles.
